@@ -531,6 +531,19 @@ func c10Body(t *zsim.Tape, w *zsim.World, d *zsim.Disk, sc *c10Scenario, out *hl
 		`{"SourceCode":"输入甲\n输出甲","VarInput":"甲 = 【乙，“k” = 丙】"}`,
 		`{"SourceCode":"输入甲\n输出甲","VarInput":"甲 成为 无此类：1"}`,
 		`{"SourceCode":"输入甲\n输出甲","VarInput":"甲 = 1 / 0"}`,
+		`{"SourceCode":"输入甲\n输出甲","VarInput":"甲 = （新建异常：“x”）"}`,
+		`{"SourceCode":"输入甲\n输出甲","VarInput":"甲 成为 异常：“x”"}`,
+		`{"SourceCode":"输入甲\n输出甲","VarInput":"甲 = 以数值（自增：1）"}`,
+		`{"SourceCode":"输入甲\n输出甲","VarInput":"甲 = 1\n甲 = 2"}`,
+		`{"SourceCode":"输入甲\n输出甲","VarInput":"甲 = 以【1】（寻找）"}`,
+		`{"SourceCode":"输入甲\n输出甲","VarInput":"甲 = 【1，2】 # 9"}`,
+		`{"SourceCode":"输入甲\n输出甲","VarInput":"甲 = 空 之 长度"}`,
+		`{"SourceCode":"输入甲\n输出甲","VarInput":"如何甲？\n\t输出1"}`,
+		`{"SourceCode":"输入甲\n输出甲","VarInput":"导入《@JSON》\n甲 = 1"}`,
+		`{"SourceCode":"输入甲\n输出甲","VarInput":"甲 = （解析JSON：“1”）"}`,
+		`{"SourceCode":"输入甲\n输出甲","VarInput":"抛出异常：“x”！"}`,
+		`{"SourceCode":"输入甲\n输出甲","VarInput":"甲"}`,
+		`{"SourceCode":"输入甲\n输出甲","VarInput":"= 1"}`,
 		`{"a":1,"b":[1,2]}`,
 		`[1,2,3]`,
 		`not json`,
